@@ -343,6 +343,12 @@ func (r *run) deliver(e *bftsim.Envelope) string {
 	if honest {
 		switch e.Kind {
 		case "PROPOSE", "PRECOMMIT", "COMMIT":
+			// the model covers CheckProposerMessage for structurally well-formed messages (QuorumCertificate.CheckBasic):
+			// e.g. an honest leader whose lock was replaced by a block-less certificate proposes a nil block
+			if m.Qc.CheckBasic() != nil || (m.HighQc != nil && m.HighQc.CheckBasic() != nil) {
+				r.o.Count("dl:skipped-malformed-certificate")
+				break
+			}
 			res := "ok"
 			switch {
 			case err != nil:
